@@ -118,6 +118,13 @@ def main():
 
 def finish(meta, cdir, keep):
     sid = meta["id"]
+    if "--dry" in sys.argv:
+        # measurement only (e.g. under another VERIF_SEED): print, keep
+        # the recorded meta.json as it is
+        print("DRY", sid, json.dumps({p: [v["exit"], v["violations"]]
+                                      for p, v in meta.get("checks",
+                                                           {}).items()}))
+        return 0
     if keep:
         dest = os.path.join(VERIF, "seeded", sid)
         os.makedirs(dest, exist_ok=True)
